@@ -19,6 +19,9 @@ CAUSES = ["cancel", "deadline", "close", "peerclose", "garbage"]
 
 def explore(ctx, art):
     lines = ["case %s %s %s %s" % (t, o, p, c) for t in ("udp", "tcp") for o in OPS for p in POINTS for c in CAUSES]
+    # queued behind the connection-wide limit while holding the endpoint slot of its own path; after the interrupted call has
+    # returned, a follow-up request for the same path (context that does not end) must return when the connection is closed
+    lines += ["case %s %s queuedg %s" % (t, o, c) for t in ("udp", "tcp") for o in ("get", "observe") for c in CAUSES]
     if ctx.tier == "thorough":
         lines = lines * 3     # the scheduler inside a bubble is not seeded: repeat the grid
     # datagram session whose reader returns (and completes the done signal) only 50 ms after Close(): a pending operation
